@@ -381,6 +381,7 @@ impl State {
     // it. Done with the logging primitives and closed by a SetIp, so that reverse
     // stepping walks back through the halt like through any other step.
     fn halt(&mut self) {
+        self.close_open_group();
         let mut changed = false;
         while self.pop_loop().is_ok() {
             changed = true;
@@ -1027,6 +1028,7 @@ impl State {
 
     pub fn run(&mut self) -> Xresult {
         self.clear_last_error();
+        self.close_open_group();
         while self.is_running() {
             self.fetch_and_run().map_err(|e| {
                 self.set_runtime_err_location(&e);
@@ -1315,8 +1317,23 @@ impl State {
         OK
     }
 
+    // What is on the reverse log behind the last SetIp was recorded outside a
+    // completed instruction: by the host between two steps (push_data,
+    // set_binary_input), or by an instruction that failed half way. It is a step of
+    // its own for rnext, not a part of whatever is recorded next.
+    fn close_open_group(&mut self) {
+        let ip = self.ctx.ip;
+        if let Some(log) = self.reverse_log.as_mut() {
+            match log.last() {
+                None | Some(ReverseStep::SetIp(_)) => (),
+                _ => log.push(ReverseStep::SetIp(ip)),
+            }
+        }
+    }
+
     pub fn next(&mut self) -> Xresult {
         if self.is_running() {
+            self.close_open_group();
             self.clear_last_error();
             self.fetch_and_run().map_err(|e| {
                 self.set_runtime_err_location(&e);
